@@ -245,6 +245,7 @@ class ActivityAnalyzer(transformer.Base):
     # Note: all these flags crucially rely on the respective nodes are
     # leaves in the AST, that is, they cannot contain other statements.
     self._in_aug_assign = False
+    self._in_named_expr_target = False
     self._in_annotation = False
     self._track_annotations_only = False
 
@@ -301,7 +302,8 @@ class ActivityAnalyzer(transformer.Base):
 
     if isinstance(node.ctx, ast.Store):
       # In comprehensions, modified symbols are the comprehension targets.
-      if self.state[_Comprehension].level > 0:
+      if (self.state[_Comprehension].level > 0 and
+          not self._in_named_expr_target):
         self.state[_Comprehension].targets.add(qn)
         return
 
@@ -404,6 +406,15 @@ class ActivityAnalyzer(transformer.Base):
     if node.annotation:
       node.annotation = self._process_annotation(node.annotation)
     self._exit_and_record_scope(node)
+    return node
+
+  def visit_NamedExpr(self, node):
+    # The target of an assignment expression is bound in the enclosing function
+    # even when the expression is part of a comprehension (PEP 572).
+    node.value = self.visit(node.value)
+    self._in_named_expr_target = True
+    node.target = self.visit(node.target)
+    self._in_named_expr_target = False
     return node
 
   def visit_AugAssign(self, node):
